@@ -198,4 +198,14 @@ class _Inline(_InternalNode):
                 "Inlined graph initializers should be handled beforehand and be removed from the graph."
             )
         nodes: List[onnx.NodeProto] = list(graph.node)
+        # An output which is directly an input of the model is not produced by any node
+        for i, p in enumerate(self.graph.output):
+            if p.name in input_names:
+                nodes.append(
+                    onnx.helper.make_node(
+                        "Identity",
+                        [scope.var[self.inputs.inputs[input_names[p.name]]]],
+                        [scope.var[self.outputs.outputs[i]]],
+                    )
+                )
         return nodes
